@@ -50,6 +50,8 @@ def cases(spec, ctx):
         if rng.random() < 0.12:
             from . import c16
             base = c16.gen_case(rng)
+            while base.get("prim") or base.get("plain_scalar"):
+                base = c16.gen_case(rng)
             base["cond"] = rng.choice(["join3", "join3", "both", "elem_stacked"])
             base["scalar"] = False
             base["sel"] = rng.choice(["parent_elem", "elem_parent", "elem"])
@@ -64,6 +66,8 @@ def cases(spec, ctx):
             continue
         if rng.random() < 0.2:
             fc = c10.gen_case(rng)
+            while fc.get("corr"):       # correlated universal sub-queries have no condition AST to rewrite
+                fc = c10.gen_case(rng)
             fc["caching"] = True
             variants = []
             for _ in range(3):
@@ -140,7 +144,7 @@ def check_flatten_case(case, ctx):
     import re
     base = case["flatten"]
     ctx.cls("cls:flatten_query")
-    es, ps = c16.build_world(base["world"])
+    es, ps = c16.build_world(base["world"], base.get("prim", False))
     try:
         rows0 = set(c16.run(base, es, ps, True)[0])
     except Exception as e:
@@ -151,7 +155,7 @@ def check_flatten_case(case, ctx):
         vc = dict(base)
         vc["cond_order"] = v["cond_order"]
         vc["world"] = {"parents": [base["world"]["parents"][j] for j in v["perm"]]}
-        es2, ps2 = c16.build_world(vc["world"])
+        es2, ps2 = c16.build_world(vc["world"], vc.get("prim", False))
         try:
             rows = c16.run(vc, es2, ps2, True)[0]
         except Exception as e:
